@@ -29,9 +29,15 @@ def gen(rng, i, tier):
         per = rng.integers(1, 4, nb + 1)
         x = np.concatenate([g + rng.uniform(0, xdiv, p) for g, p in zip(grid, per)] + [grid[:1], [xmax]])
         x = np.concatenate([x, rng.uniform(xmin - 1, xmin - 1e-3, 3), rng.uniform(xmax + 1e-3, xmax + 1, 3)])
-    shuffled = bool(rng.random() < 0.5)
+    r = rng.random()
+    shuffled = bool(r < 0.5)
     if shuffled:
         x = rng.permutation(x)
+    elif r < 0.7:
+        # two ascending banks with overlapping ranges, concatenated (the first one runs past xmax before the second starts)
+        xs = np.sort(x)
+        x = np.concatenate([xs[0::2], xs[1::2]])
+        shuffled = True
     y = rng.normal(size=len(x)) * 2 + 1
     z = rng.normal(size=len(x))
     return dict(x=tolist(x), y=tolist(y), z=tolist(z), xmin=xmin, xdiv=xdiv, xmax=float(xmax), a=float(rng.normal()), b=float(rng.normal()),
@@ -61,7 +67,11 @@ def evaluate(case):
     try:
         g, v = Pre_Proc.rebin(x, y, xmin, xdiv, xmax)
     except ZeroDivisionError:
-        return []  # an empty bin: recorded, not judged (the generators populate every bin)
+        # an empty bin is outside the property's quantifier; but a bin that does receive data (by the independent
+        # reference) must not come out empty
+        if np.isfinite(hat_reference(x, y, xmin, xdiv, xmax)[1]).all():
+            return ["rebin raises ZeroDivisionError (a bin came out empty) although every returned bin receives data from the input points"]
+        return []
     g, v = np.asarray(g, dtype=float), np.asarray(v, dtype=float)
     n = int((xmax - xmin) / xdiv) + 1
     if len(g) != n or abs(g[0] - xmin) > 0 or (g > xmax + 1e-12).any() or np.abs(np.diff(g) - xdiv).max(initial=0.0) > 1e-9:
@@ -88,9 +98,12 @@ def evaluate(case):
         if np.abs(v[:m] - y[:m]).max() > 1e-7 * max(1.0, float(np.abs(y).max())):
             fails.append("data already on the grid (one per node) do not come back unchanged")
     p = np.asarray(case["perm"])
-    _, vp = Pre_Proc.rebin(x[p], y[p], xmin, xdiv, xmax)
-    if np.abs(np.asarray(vp) - v).max() > 1e-10 * max(1.0, float(np.abs(y).max())):
-        fails.append("result depends on the input order")
+    try:
+        _, vp = Pre_Proc.rebin(x[p], y[p], xmin, xdiv, xmax)
+        if np.abs(np.asarray(vp) - v).max() > 1e-10 * max(1.0, float(np.abs(y).max())):
+            fails.append("result depends on the input order")
+    except ZeroDivisionError:
+        fails.append("result depends on the input order: a permutation of the same points makes rebin raise ZeroDivisionError (a populated bin came out empty)")
     xs, ys = x.copy(), y.copy()
     Pre_Proc.rebin(xs, ys, xmin, xdiv, xmax)
     if not (np.array_equal(xs, x) and np.array_equal(ys, y)):
